@@ -443,6 +443,14 @@ func Encode(w io.Writer, img image.Image, opts *EncoderOptions) error {
 		return fmt.Errorf("webp: image dimension %dx%d exceeds maximum %d", imgW, imgH, MaxDimension)
 	}
 
+	// The fast paths read *image.RGBA pixel bytes directly, which is only exact
+	// for opaque pictures (premultiplied == non-premultiplied). A translucent
+	// RGBA picture is converted once with the standard colour model, so that it
+	// encodes exactly like any other image.Image yielding the same colours.
+	if rgba, ok := img.(*image.RGBA); ok && validRGBA(rgba, imgW, imgH) && !rgbaIsOpaque(rgba) {
+		img = rgbaToNRGBA(rgba)
+	}
+
 	if opts.Lossless {
 		hasMetadata := len(opts.ICC) > 0 || len(opts.EXIF) > 0 || len(opts.XMP) > 0
 		if !hasMetadata {
@@ -613,6 +621,36 @@ func validNRGBA(img *image.NRGBA, w, h int) bool {
 // reads when accessing raw pixel data in fast-path encoders.
 func validRGBA(img *image.RGBA, w, h int) bool {
 	return img.Stride >= w*4 && len(img.Pix) >= (h-1)*img.Stride+w*4
+}
+
+// rgbaIsOpaque reports whether every pixel inside the image's bounds has alpha 255.
+func rgbaIsOpaque(img *image.RGBA) bool {
+	w, h := img.Rect.Dx(), img.Rect.Dy()
+	for y := 0; y < h; y++ {
+		row := img.Pix[y*img.Stride : y*img.Stride+w*4]
+		for x := 3; x < len(row); x += 4 {
+			if row[x] != 0xff {
+				return false
+			}
+		}
+	}
+	return true
+}
+
+// rgbaToNRGBA converts a premultiplied RGBA image to non-premultiplied NRGBA
+// with exactly the arithmetic of color.NRGBAModel.
+func rgbaToNRGBA(img *image.RGBA) *image.NRGBA {
+	w, h := img.Rect.Dx(), img.Rect.Dy()
+	dst := image.NewNRGBA(img.Rect)
+	for y := 0; y < h; y++ {
+		s := img.Pix[y*img.Stride : y*img.Stride+w*4]
+		d := dst.Pix[y*dst.Stride : y*dst.Stride+w*4]
+		for x := 0; x < len(s); x += 4 {
+			c := color.NRGBAModel.Convert(color.RGBA{R: s[x], G: s[x+1], B: s[x+2], A: s[x+3]}).(color.NRGBA)
+			d[x], d[x+1], d[x+2], d[x+3] = c.R, c.G, c.B, c.A
+		}
+	}
+	return dst
 }
 
 // encodeLossless encodes the image as a VP8L lossless bitstream.
